@@ -26,7 +26,8 @@ EXPLANATION = (
     "enumeration item look-ups decide by whole-string equality; (R7) in the files that read literals a severity already raised is "
     "lowered only at reviewed sites or under a guard that the severity is exactly SEVERITY_INCOMPLETE (C03's relaxation rule and table). (R1, generalised) a reader that converts with a C library function (strtod, strtol, ...) tests both the end pointer and the range indication (errno / isinf / HUGE_VAL) before it accepts the value; a conversion that cannot report failure (atof, atoi) is a violation. (R7) a failed conversion of an optional attribute is not forgiven. Not decided: equality of the hand-written scanners' "
     "accepted language with the ISO grammar, exact values, string escapes."
-    " (R8) a linear search whose loop condition is `i < B && <no match>` and the later not-found test on i use the same bound expression B (SDAI_Enum / SDAI_LOGICAL ReadEnum and set_value, STEPcomplex::Replicate): otherwise an unknown token is silently read as the entry at the last index.")
+    " (R8) a linear search whose loop condition is `i < B && <no match>` and the later not-found test on i use the same bound expression B (SDAI_Enum / SDAI_LOGICAL ReadEnum and set_value, STEPcomplex::Replicate): otherwise an unknown token is silently read as the entry at the last index."
+    " (R9) no branch is decided by a look-ahead variable (`c = in.peek()`) after something was consumed from the same stream and before the variable was assigned again (typestate over flag-consistent paths).")
 
 READERS = {"ReadInteger": "integer", "ReadReal": "real", "ReadNumber": "number"}
 
@@ -450,6 +451,94 @@ def r8_search_bound_agrees(prog, res):
     res.floor("R8.search_bound_agrees", "searches with a not-found test", n, 4)
 
 
+def r9_lookahead_not_stale(prog, res):
+    """A variable that holds the look-ahead character (`c = in.peek()`) describes the stream only until something is consumed from
+    it.  Typestate over the flag-consistent paths (pathstate): a consuming call on the same stream (`get()`, `ignore`, `>>` of anything
+    but `ws`, `read`, `getline`) makes every look-ahead variable of that stream stale, an assignment (or `in.get( c )`) makes it fresh;
+    no branch may be decided by a stale look-ahead.  `if( c == '+' ) in.get();` without a new peek leaves `c == '+'` for the digit tests
+    that follow: the number is read as `no digits` and its text is skipped as garbage."""
+    import pathstate
+    import stuckstream
+
+    def core(n):
+        n = strip(n)
+        while n is not None and n["k"] in ("Cast", "Paren") and n.get("ch"):
+            n = strip(n["ch"][0])
+        return n
+    nf = 0
+    for f in prog.all_functions():
+        if f.component == "test" or f.cfg is None:
+            continue
+        pv = {}
+        for a in f.walk():
+            l = r = None
+            if a["k"] == "Assign" and a.get("op", "=") == "=":
+                l, r = core(a["ch"][0]), core(a["ch"][1])
+                d = l.get("d") if l is not None and l["k"] == "Ref" else None
+                nm = l.get("n") if d else None
+            elif a["k"] == "Var" and a.get("ch") and a["ch"][0] is not None:
+                r = core(a["ch"][0])
+                d, nm = a["d"], a["n"]
+            else:
+                continue
+            if d and r is not None and r["k"] == "Call" and (r.get("fn") or "").endswith("::peek") and r.get("ch"):
+                st = stuckstream.stream_of(f, r["ch"][0])
+                if st:
+                    pv[d] = (nm, st)
+        if not pv:
+            continue
+        hits = {}
+
+        def consumed_stream(nd, f=f):
+            if nd["k"] != "Call" or not nd.get("ch"):
+                return None
+            short = (nd.get("fn") or "").split("::")[-1]
+            if short in ("get", "ignore", "getline", "read"):
+                return stuckstream.stream_of(f, nd["ch"][0])
+            if nd.get("opcall") == ">>" or short == "operator>>":
+                tgt = core(nd["ch"][1]) if len(nd["ch"]) > 1 else None
+                if tgt is not None and tgt.get("n") == "ws":
+                    return None
+                return stuckstream.stream_of(f, nd["ch"][0])
+            return None
+
+        def on_node(nd, ts, env, pv=pv):
+            k = nd["k"]
+            if k == "Assign" and nd.get("op", "=") == "=":
+                l = core(nd["ch"][0])
+                if l is not None and l["k"] == "Ref" and l.get("d") in pv:
+                    return ts - {l["d"]}
+            if k == "Var" and nd.get("d") in pv:
+                return ts - {nd["d"]}
+            st = consumed_stream(nd)
+            if st:
+                out = set(ts) | {d for d, (_, s2) in pv.items() if s2 == st}
+                for a in call_args(nd):
+                    a = core(a)
+                    if a is not None and a["k"] == "Ref" and a.get("d") in pv:
+                        out.discard(a["d"])       # in.get( c ) / in >> c  re-assigns c
+                return frozenset(out)
+            return ts
+
+        def on_edge(cond, br, ts, env, hits=hits):
+            for y in walk(cond):
+                if y["k"] == "Ref" and y.get("d") in ts:
+                    hits.setdefault(y["d"], (cond, y))
+            return ts
+        try:
+            pathstate.walk(f, frozenset(), on_node, on_edge=on_edge)
+        except pathstate.Budget as ex:
+            res.broke("R9: %s" % ex)
+            continue
+        nf += 1
+        bad = sorted(hits.values(), key=lambda h: h[0]["l"])
+        res.add("R9.lookahead_not_stale", "R9|%s|%s" % (f.relfile(), f.name), f.where(bad[0][0]) if bad else f.where(), not bad,
+                "every branch on a look-ahead variable (%s) follows a peek with nothing consumed in between" % ", ".join(sorted(n_ for n_, _ in pv.values())) if not bad else
+                "`%s` still holds the character peeked before the stream was advanced when `%s` is decided: the branch describes a character "
+                "that has already been consumed" % (bad[0][1]["n"], expr_str(bad[0][0])[:60]))
+    res.floor("R9.lookahead_not_stale", "functions with a look-ahead variable", nf, 12)
+
+
 def run(prog, res, tier):
     sev = sev_enum(prog)
     if sev is None:
@@ -462,3 +551,4 @@ def run(prog, res, tier):
     r6_enum_item_match(prog, res)
     r7_failure_not_forgiven(prog, res, sev)
     r8_search_bound_agrees(prog, res)
+    r9_lookahead_not_stale(prog, res)
